@@ -31,4 +31,4 @@ for sid in sorted(os.listdir(os.path.join(V, 'seeded'))):
 print('| seeded change | prop | what it does | confirmed | outcome | failing obligation(s) |')
 print('|---|---|---|---|---|---|')
 for r in rows:
-    print('| %s | %s | %s | %s | %s | %s |' % r)
+    print('| %s | %s | %s | %s | %s | %s |' % tuple(str(x).replace('|', '\\|') for x in r))
